@@ -4,6 +4,8 @@ package canvas
 // Grid(w, h, nx, ny, r): outer rectangle w x h plus nx*ny cell holes of size dx x dy whose
 // lower-left corners are at (r + i(r+dx), r + j(r+dy)).
 func VH_C10_shapes_grid_Q() {
+	vStub("math.Hypot", vhHypotQ)
+	vStub("math.Atan2", vhAtan2Sign)
 	nx, ny := vChoose(1, 2), vChoose(1, 2)
 	w, h, r := vNondetF64(), vNondetF64(), vNondetF64()
 	vAssume(1 <= w && w <= 64 && 1 <= h && h <= 64 && 0.015625 <= r && r <= 4)
@@ -65,6 +67,8 @@ func VH_C10_shapes_grid_Q() {
 
 // Rectangle / RoundedRectangle / BeveledRectangle / Ellipse-free shapes: bounding geometry.
 func VH_C10_shapes_rect_Q() {
+	vStub("math.Hypot", vhHypotQ)
+	vStub("math.Atan2", vhAtan2Sign)
 	w, h := vNondetF64(), vNondetF64()
 	vAssume(0.125 <= w && w <= 64 && 0.125 <= h && h <= 64)
 	kind := vChoose(0, 1)
